@@ -97,6 +97,9 @@ func derefT(t types.Type) types.Type {
 }
 
 func runC08(c *Ctx) {
+	// builders marshal and parsers decode the same models: their member names are the wire format's
+	c.wireNames("C08.K3", "CreateRequest", "SuffixDataModel", "DeltaModel", "UpdateRequest", "DeactivateRequest", "RecoverRequest", "UpdateSignedDataModel", "RecoverSignedDataModel", "DeactivateSignedDataModel")
+	c.Min("C08.K3", 40)
 	builders := map[string]*ssa.Function{"create": c.Fn(pClient, "NewCreateRequest"), "update": c.Fn(pClient, "NewUpdateRequest"), "recover": c.Fn(pClient, "NewRecoverRequest"), "deactivate": c.Fn(pClient, "NewDeactivateRequest")}
 	mc := c.Fn("canonicalizer", "MarshalCanonical")
 	signModel := c.Fn("util/signutil", "SignModel")
